@@ -3,10 +3,10 @@ package c19
 
 import (
 	"bytes"
-	"math"
 	"encoding/json"
 	"errors"
 	"fmt"
+	"math"
 	"reflect"
 	"strings"
 	"sync/atomic"
@@ -329,7 +329,7 @@ type scopeFail2 struct {
 }
 type scopeFail3 struct {
 	A int
-	B failM `json:",format:base16"`
+	B failM  `json:",format:base16"`
 	C []byte `json:",format:base16"`
 }
 type scopeFail4 struct {
@@ -349,7 +349,12 @@ func snapshot(o jsonv2.Options, ks []key) string {
 
 func scoping(r *evid.Run, ks []key) {
 	baseSets := [][]jsonv2.Options{nil, {jsontext.AllowDuplicateNames(true)}, {jsonv2.Deterministic(true), jsontext.SpaceAfterComma(true)}, {jsonv1.DefaultOptionsV1()}, {jsonv2.ExperimentalSupportFormatTag(true), jsontext.AllowDuplicateNames(true)}}
-	extraSets := [][]jsonv2.Options{nil, {jsonv2.StringifyNumbers(true)}, {jsonv2.RejectUnknownMembers(true), jsonv2.MatchCaseInsensitiveNames(true)}, {jsonv2.FormatNilSliceAsNull(true), jsonv2.OmitZeroStructFields(true)}, {jsonv2.WithMarshalers(mA), jsonv2.WithUnmarshalers(uA)}, {jsonv2.ExperimentalSupportFormatTag(true)}}
+	extraSets := [][]jsonv2.Options{nil, {jsonv2.StringifyNumbers(true)}, {jsonv2.RejectUnknownMembers(true), jsonv2.MatchCaseInsensitiveNames(true)}, {jsonv2.FormatNilSliceAsNull(true), jsonv2.OmitZeroStructFields(true)}, {jsonv2.WithMarshalers(mA), jsonv2.WithUnmarshalers(uA)}, {jsonv2.ExperimentalSupportFormatTag(true)},
+		// per-call options that the call refuses (whitespace may not change on a caller-owned Encoder; the Allow* options may not
+		// change at a name position): the refusal is an error exit like any other
+		{jsonv2.StringifyNumbers(true), jsonv2.Deterministic(true), jsontext.SpaceAfterComma(true)}, {jsontext.Multiline(true), jsonv2.StringifyNumbers(true)},
+		{jsontext.WithIndent(" "), jsonv2.FormatNilSliceAsNull(true)}, {jsontext.AllowDuplicateNames(true), jsonv2.StringifyNumbers(true)}, {jsontext.AllowInvalidUTF8(true), jsonv2.OmitZeroStructFields(true)},
+		{jsontext.SpaceAfterComma(false), jsontext.AllowDuplicateNames(false), jsonv2.Deterministic(true)}}
 	// decode side: documents with an error at every stage (string-tagged fields, nested, format-tagged, unknown members, syntax)
 	docs := []string{
 		`{"a":1}`, `{"S":"12","F":"1.5"}`, `{"a":1,"S":"1"}`, `{"S":"x"}`, `{"S":12}`, `{"F":"1e999"}`, `{"a":"no"}`, `{"M":{"k":{"S":"bad"}}}`, `{"L":[{"a":1},{"S":"bad"}]}`, `{"M":{"k":{"a":1}},"a":true}`,
@@ -396,10 +401,17 @@ func scoping(r *evid.Run, ks []key) {
 			// encode side
 			vals := []any{scopeFail1{F: math.NaN()}, scopeFail2{}, scopeFail3{}, scopeFail4{A: 1, In: scopeFail1{F: math.Inf(1)}}, []any{scopeFail2{}}, map[string]any{"k": scopeFail3{}},
 				scopeT{A: 1, S: 2, F: 1.5}, scopeT{M: map[string]scopeT{"k": {L: []scopeT{{Z: make(chan int)}}}}}, scopeT{Z: map[string]any{"a": []any{1.0, func() {}}}}, []any{1, "a"}, map[string]any{"\xff": 1}}
-			for vi, v := range vals {
+			for vi, v := range append(vals, vals[6], vals[9], vals[6], vals[9]) {
 				n++
 				var bb bytes.Buffer
 				enc := jsontext.NewEncoder(&bb, base...)
+				if vi >= len(vals) {
+					// the same values with the Encoder inside an array / at a member-name position
+					enc.WriteToken(jsontext.BeginArray)
+					if vi >= len(vals)+2 {
+						enc.WriteToken(jsontext.BeginObject)
+					}
+				}
 				before := snapshot(enc.Options(), ks)
 				err := jsonv2.MarshalEncode(enc, v, extra...)
 				after := snapshot(enc.Options(), ks)
@@ -786,4 +798,6 @@ func Run(r *evid.Run) {
 	scoping(r, ks)
 	v1v2(r, ks)
 	universe(r)
+	universeLaws(r)
+	callerListUntouched(r)
 }
